@@ -154,8 +154,9 @@ def evidence(acc):
         "assumptions": [
             "the evidence filters of estimate_minor are taken as given (re-applied through aldy's own Coverage.filtered)",
             "the tie-breaker (minor_add * index / 1e6 per addition) is not re-implemented: its bound is the tolerance",
-            "the read-phase term is not re-implemented: with phase records only rules 1-6 and cross-adversary "
-            "equality of the optimum are decided",
+            "the read-phase term is re-implemented (every pattern goes to the called copy it disagrees with least); "
+            "the model's down-sampling of phase patterns is not: cases that would be down-sampled are judged by rules "
+            "1-6 and cross-adversary equality only",
             "homozygous-variant post-processing adds variants the objective never paid for; the evaluator accepts any "
             "number of paid copies consistent with the report",
         ],
@@ -250,8 +251,49 @@ class Evaluator:
                 return "a considered variant with supporting reads is carried by no allele"
         return None
 
+    def phase_modes(self):
+        """Read-phase patterns the model uses: per fragment the shown alleles at considered positions (at least
+        two of them), counted by pattern.  None when the model would down-sample them (not re-implemented)."""
+        if getattr(self, "_modes", "unset") != "unset":
+            return self._modes
+        self._modes = {}
+        ph = getattr(getattr(self.cov, "sam", None), "phases", None)
+        if self.profile.phase and ph:
+            mut_pos = {m.pos for m in self.muts}
+            modes = Counter()
+            for rv in ph.values():
+                c = tuple(sorted((k, v) for k, v in rv.items() if k in mut_pos))
+                if len(c) > 1:
+                    modes[c] += 1
+            pool = sum(len(self.gene.alleles[ma].minors) * n for ma, n in getattr(self, "pool_counts", self.major_counts).items())
+            self._modes = None if len(modes) * max(1, pool) > self.profile.minor_phase_vars else dict(modes)
+        return self._modes
+
+    def phase_cost(self, assign):
+        """Read-phase disagreement of an assignment: every pattern goes to the called allele copy it disagrees
+        with least; a considered variant the pattern shows and the copy lacks, or the copy carries and the pattern
+        does not show, is one disagreement."""
+        modes = self.phase_modes()
+        if not modes:
+            return 0.0
+        total = 0.0
+        for c, cnt in modes.items():
+            r = dict(c)
+            best = None
+            for e in assign:
+                rel = [m for m in self.muts if m.pos in r and self.gene.has_coverage(e[0], m.pos)]
+                if len(rel) <= 1:
+                    continue
+                car = self.carried(e)
+                cost = sum(1 for m in rel if (m.op == r[m.pos]) != (m in car))
+                best = cost if best is None else min(best, cost)
+            if best is None:
+                continue
+            total += cnt * best
+        return self.profile.minor_phase * total
+
     def objective(self, assign):
-        """Model objective of an assignment, without tie-breaker and phase term."""
+        """Model objective of an assignment, without tie-breaker (read-phase term included)."""
         carriers = Counter()
         addc = Counter()
         for e in assign:
@@ -279,7 +321,7 @@ class Evaluator:
             pen += self.profile.minor_miss * (len(self.definition(major, minor)) - len(keep))
         pen += self.profile.minor_add * sum(addc.values())
         pen += self.profile.minor_add / 2 * sum(1 for m, n in addc.items() if n > 0 and self.gene.is_functional(m))
-        return err + pen
+        return err + pen + self.phase_cost(assign)
 
     def admissible_extra(self, assign):
         """Model constraints beyond rules 1-6 (needed for the brute-force reference)."""
@@ -506,6 +548,15 @@ def run_case(case, seg, viol, stats, sample):
             muts = {m.pos: m.op for m in SL.allele_muts(gene, ma, mi)}
             k = rng.sample(sites, min(len(sites), rng.randint(2, 3)))
             phases[f"f{i}"] = {p: muts.get(p, "_") for p in k if gene.has_coverage(ma, p)}
+            if rng.random() < 0.25 and phases[f"f{i}"]:
+                # a base at a considered site that is none of its catalogued alleles (it speaks against every
+                # copy that carries a catalogued variant there)
+                p_ = rng.choice(sorted(phases[f"f{i}"]))
+                ref_ = gene[p_]
+                known_ = {o for (q_, o) in gene.mutations if q_ == p_}
+                alts_ = [f"{ref_}>{b}" for b in "ACGT" if b != ref_ and f"{ref_}>{b}" not in known_]
+                if ref_ in "ACGT" and alts_:
+                    phases[f"f{i}"][p_] = rng.choice(alts_)
         stats["phase_cases"] += 1
     profile = Profile("test", phase=bool(case["phase"]))
     # a companion candidate with another gene structure in the same call (the pipeline does this
@@ -637,9 +688,11 @@ def run_case(case, seg, viol, stats, sample):
                 stats["missing"] += 1
             if si_ == 0:
                 res.append((assign, s.score))
-            if case["phase"]:
+            if case["phase"] and ev.phase_modes() is None:
                 stats["objective_skipped"] += 1
                 continue
+            if case["phase"]:
+                stats["objective_with_phase"] = stats.get("objective_with_phase", 0) + 1
             # additions that the homozygous post-processing may have appended without the model paying
             maxcn = ev.cn.max_cn()
             U = [m for m in ev.muts if abs(ev.obs[m] - maxcn) <= 1e-5 and any(m in e[3] for e in assign)]
@@ -649,10 +702,15 @@ def run_case(case, seg, viol, stats, sample):
             elif len(U) <= 3:
                 stats["postprocessed"] += 1
                 want = []
-                ranges = [range(0, sum(1 for e in assign if m in e[3]) + 1) for m in U]
-                for js in itertools.product(*ranges):
-                    paid = Counter(dict(zip(U, js)))
-                    want.append(_objective_paid(ev, assign, paid))
+                # which of the reported carriers of such a variant the model itself had chosen (any subset: with
+                # read-phase records it matters which copy, not only how many)
+                carriers_ = [[i_ for i_, e in enumerate(assign) if m in e[3]] for m in U]
+                subsets_ = [[set(c_) for r_ in range(len(cs) + 1) for c_ in itertools.combinations(cs, r_)] for cs in carriers_]
+                for choice in itertools.product(*subsets_):
+                    keepers = dict(zip(U, choice))
+                    reduced = [(ma_, mi_, kp_, tuple(m for m in ad_ if m not in keepers or i_ in keepers[m]))
+                               for i_, (ma_, mi_, kp_, ad_) in enumerate(assign)]
+                    want.append(ev.objective(reduced))
             else:
                 stats["objective_skipped"] += 1
                 continue
@@ -698,8 +756,8 @@ def run_case(case, seg, viol, stats, sample):
     # no reference reads and at least two considered alternative alleles (see known findings)
     # (the finding is identified by its mechanism where the clauses are judged: see Evaluator.slot_excess)
     # brute-force reference (tiny instances, phase off)
-    if not case["phase"]:
-        best, nenum = ev.brute()
+    if not case["phase"] or ev.phase_modes() is not None:
+        best, nenum = ev.brute(limit=MAX_ENUM if not case["phase"] else 20000)
         if nenum:
             stats["brute"] += 1
             stats["brute_assignments"] += nenum
@@ -808,9 +866,12 @@ def _candidates_scores(ev, assign):
     if not U or len(U) > 3:
         return [ev.objective(assign)]
     out = []
-    ranges = [range(0, sum(1 for e in assign if m in e[3]) + 1) for m in U]
-    for js in itertools.product(*ranges):
-        out.append(_objective_paid(ev, assign, Counter(dict(zip(U, js)))))
+    carriers_ = [[i_ for i_, e in enumerate(assign) if m in e[3]] for m in U]
+    subsets_ = [[set(c_) for r_ in range(len(cs) + 1) for c_ in itertools.combinations(cs, r_)] for cs in carriers_]
+    for choice in itertools.product(*subsets_):
+        keepers = dict(zip(U, choice))
+        out.append(ev.objective([(ma_, mi_, kp_, tuple(m for m in ad_ if m not in keepers or i_ in keepers[m]))
+                                 for i_, (ma_, mi_, kp_, ad_) in enumerate(assign)]))
     return out
 
 
